@@ -247,16 +247,19 @@ theorem readDecl_print (f : Func) (h : headerOK f) : readDecl (declString f) = s
 
 theorem mdInstOKB_sound (useHex : Int → Bool) (i : Inst) (h : mdInstOKB useHex i = true) : mdOK useHex i := by
   simp only [mdInstOKB, Bool.and_eq_true, List.all_eq_true, Bool.not_eq_true', decide_eq_true_eq, beq_iff_eq] at h
-  refine ⟨fun a ha => ?_, h.1.2, ?_⟩
-  · have := h.1.1 a ha
+  obtain ⟨⟨⟨h1, h2⟩, h3⟩, h4⟩ := h
+  refine ⟨fun a ha => ?_, h2, ?_, ?_⟩
+  · have := h1 a ha
     exact ⟨by intro e; rw [e] at this; simp at this, this.2⟩
-  · have h2 := h.2
-    cases he : i.md.isEmpty with
+  · cases he : i.md.isEmpty with
     | true => left; simpa using he
     | false =>
       right
-      simp only [he, Bool.false_or, Bool.and_eq_true, Bool.not_eq_true'] at h2
-      exact ⟨h2.2, h2.1⟩
+      simpa [he] using h3
+  · intro l hl
+    simp only [Option.mem_def] at hl
+    rw [hl] at h4
+    simpa using h4
 
 theorem mdWF_sound (useHex : Int → Bool) (f : Func) (h : mdWF useHex f = true) : ∀ b ∈ f.blocks, blockMdOK useHex b := by
   simp only [mdWF, List.all_eq_true] at h
